@@ -3,6 +3,7 @@ package main
 // Models of time, cosmos-sdk leaf helpers and lava logging.
 
 import (
+	"math"
 	"math/big"
 	"strings"
 	"time"
@@ -198,6 +199,36 @@ func (ex *Exec) lavaLogConst(name string) int64 {
 	}
 	ex.incon("constant utils.%s not found", name)
 	return -1
+}
+
+// math.* on concrete float64 values (symbolic floats are not supported by the encoder)
+func init() {
+	f1 := func(name string, f func(float64) float64) {
+		models["math."+name] = func(ex *Exec, fn *ssa.Function, args []Value) Value {
+			x, ok := args[0].(Float)
+			if !ok {
+				ex.incon("math.%s of a non-concrete float", name)
+			}
+			return Float{f(x.v)}
+		}
+	}
+	f1("Floor", math.Floor)
+	f1("Ceil", math.Ceil)
+	f1("Abs", math.Abs)
+	f1("Trunc", math.Trunc)
+	f1("Round", math.Round)
+	f2 := func(name string, f func(a, b float64) float64) {
+		models["math."+name] = func(ex *Exec, fn *ssa.Function, args []Value) Value {
+			x, ok1 := args[0].(Float)
+			y, ok2 := args[1].(Float)
+			if !ok1 || !ok2 {
+				ex.incon("math.%s of a non-concrete float", name)
+			}
+			return Float{f(x.v, y.v)}
+		}
+	}
+	f2("Max", math.Max)
+	f2("Min", math.Min)
 }
 
 var _ = strings.Contains
